@@ -117,13 +117,12 @@ def finish(prop, tier, seed, recs, assumed, reg, wall, timeout_ms, bounded=()):
                          kwargs=kw, spec_mod=rec["spec_mod"], cname=rec["contract"])
             if kw is not None:
                 violations.append((ob, rp, ""))
-            elif ob["status"] == "failed":
-                violations.append((ob, rp, " no-failing-input-found"))
             elif ck in expected:
                 # proved on the unchanged tree, not provable now even with the whole portfolio
                 violations.append((ob, rp, " no-failing-input-found"))
             else:
-                undecided.append((ob["name"], f"solvers returned unknown within {timeout_ms} ms ({ob['model'][:80]})"))
+                undecided.append((ob["name"], f"not discharged ({ob['status']}) within {timeout_ms} ms, no failing input found, and the clause "
+                                              f"is not among those proved on the unchanged tree ({ob['model'][:80]})"))
     # ---- bounded stand-ins (never counted as proved): a failing concrete case is a replayed counterexample
     bounded_ev = []
     for b in bounded:
